@@ -18,13 +18,17 @@ def gen(ctx, q):
     for (mj, sb) in combos:
         f = formats.fmt(mj, sb)
         for ch in ([1, 2, 3, 5] if not q else [1, 2, 3]):
-            for pattern in ("first", "last", "tie", "boundary", "random", "silence"):
-                if q and (hash((mj, sb, ch, pattern, ctx.seed)) % 3 == 0) and pattern not in ("tie", "boundary"):
+            for pattern in ("first", "last", "tie", "boundary", "random", "silence", "late_same_type", "late_other_type"):
+                if q and rng.below(3) == 0 and pattern in ("first", "last", "random", "silence"):
                     continue
                 nfr = rng.choice([5, 64, 700, 1500]) if ch != 3 or rng.below(2) else 1500
+                late = pattern.startswith("late")
+                if late:
+                    # one call larger than every staging buffer, the maximum far behind the first staging chunk
+                    nfr = 1500 + 37 * ch
                 mags = [[rng.range(0, GRID // 2) for _ in range(nfr)] for _ in range(ch)]
                 sign = [[rng.choice([1, -1]) for _ in range(nfr)] for _ in range(ch)]
-                parts = partition(rng, nfr)
+                parts = partition(rng, nfr) if not late else [nfr]
                 for c in range(ch):
                     top = GRID // 2 + 1 + c
                     if pattern == "first":
@@ -41,7 +45,12 @@ def gen(ctx, q):
                             mags[c][edge - 1] = top - 1 - c if rng.below(2) else top
                     elif pattern == "silence":
                         mags[c] = [0] * nfr
+                    elif late:
+                        mags[c][nfr - 90 - 7 * c] = top
                 wt = rng.choice("fd")
+                if late:
+                    same = "f" if sb == "FLOAT" else "d"
+                    wt = same if pattern == "late_same_type" else ("d" if same == "f" else "f")
                 L.append("open 0 %d w %x %d 8000" % (sid, f, ch))
                 if mj == "RF64":
                     L.append("cmd 0 SET_ADD_PEAK_CHUNK 1")
